@@ -239,7 +239,8 @@ func (s *sim) act(b *simBranch) {
 	sender := gen.Pick(r, joined)
 	target := gen.Pick(r, s.users)
 	keep := r.Chance(0.15)
-	switch r.Intn(12) {
+	kind := r.Intn(12)
+	switch kind {
 	case 0, 1: // power-level change
 		var cur *ref.Value
 		if ev, ok := b.state[stKey{"m.room.power_levels", ""}]; ok {
@@ -284,10 +285,13 @@ func (s *sim) act(b *simBranch) {
 			rules = append(rules, "restricted")
 		}
 		s.propose(b, "m.room.join_rules", strp(""), sender, ref.O("join_rule", ref.S(gen.Pick(r, rules))), keep)
-	case 3: // ban
-		s.propose(b, "m.room.member", strp(target), sender, ref.O("membership", ref.S("ban")), keep)
-	case 4: // kick / unban
-		s.propose(b, "m.room.member", strp(target), sender, ref.O("membership", ref.S("leave")), keep)
+	case 3, 4: // ban; kick / unban
+		c := ref.O("membership", ref.S(map[int]string{3: "ban", 4: "leave"}[kind]))
+		if r.Chance(0.2) {
+			// optional fields of an unexpected type do not make it any less of a ban / kick
+			c.Set(gen.Pick(r, []string{"reason", "displayname", "is_direct", "avatar_url"}), gen.Pick(r, []*ref.Value{ref.I(5), ref.A(), ref.O("x", ref.I(1)), ref.NullV()}))
+		}
+		s.propose(b, "m.room.member", strp(target), sender, c, keep)
 	case 5: // invite
 		s.propose(b, "m.room.member", strp(target), sender, ref.O("membership", ref.S("invite")), keep)
 	case 6, 7: // somebody (re)joins or leaves
